@@ -17,6 +17,7 @@ import (
 	"strings"
 	"sync"
 	"time"
+	"unsafe"
 
 	"github.com/go-jose/go-jose/v3"
 
@@ -866,29 +867,17 @@ func (s *IStore) InvalidateDeviceCodeSession(ctx context.Context, sig string) er
 
 // ---- transactions (TxStore only) ------------------------------------------
 
+// snapshot is a private copy of a whole MemoryStore: every field that is not a lock, exported or not, is copied - maps and
+// slices get fresh backing storage (recursively for containers of the storage package's own value types), stored requests are
+// kept by reference (in DB mode they are immutable once stored). Nothing here names a table, so tables or indexes a later
+// version of the reference store adds are snapshotted and rolled back like the ones it has today.
 type snapshot struct {
-	AuthorizeCodes         map[string]storage.StoreAuthorizeCode
-	IDSessions             map[string]fosite.Requester
-	AccessTokens           map[string]fosite.Requester
-	RefreshTokens          map[string]storage.StoreRefreshToken
-	DeviceAuths            map[string]fosite.DeviceRequester
-	PKCES                  map[string]fosite.Requester
-	BlacklistedJTIs        map[string]time.Time
-	AccessTokenRequestIDs  map[string]string
-	RefreshTokenRequestIDs map[string]string
-	DeviceCodesRequestIDs  map[string]storage.DeviceAuthPair
-	UserCodesRequestIDs    map[string]string
-	PARSessions            map[string]fosite.AuthorizeRequester
-	invalidDev             map[string]fosite.DeviceRequester
+	mem        *storage.MemoryStore
+	invalidDev map[string]fosite.DeviceRequester
 }
 
-// asStore exposes the snapshot's tables as a MemoryStore (sharing the maps) so that store methods can be applied to it.
-func (sn *snapshot) asStore() *storage.MemoryStore {
-	return &storage.MemoryStore{Clients: map[string]fosite.Client{}, AuthorizeCodes: sn.AuthorizeCodes, IDSessions: sn.IDSessions, AccessTokens: sn.AccessTokens,
-		RefreshTokens: sn.RefreshTokens, DeviceAuths: sn.DeviceAuths, PKCES: sn.PKCES, Users: map[string]storage.MemoryUserRelation{}, BlacklistedJTIs: sn.BlacklistedJTIs,
-		AccessTokenRequestIDs: sn.AccessTokenRequestIDs, RefreshTokenRequestIDs: sn.RefreshTokenRequestIDs, DeviceCodesRequestIDs: sn.DeviceCodesRequestIDs,
-		UserCodesRequestIDs: sn.UserCodesRequestIDs, IssuerPublicKeys: map[string]storage.IssuerPublicKeys{}, PARSessions: sn.PARSessions}
-}
+// asStore exposes the snapshot as a MemoryStore so that store methods can be applied to it.
+func (sn *snapshot) asStore() *storage.MemoryStore { return sn.mem }
 
 func cpMap[K comparable, V any](m map[K]V) map[K]V {
 	o := make(map[K]V, len(m))
@@ -898,32 +887,98 @@ func cpMap[K comparable, V any](m map[K]V) map[K]V {
 	return o
 }
 
-// Snapshot copies every table (values are immutable in DB mode).
-func (s *IStore) Snapshot() *snapshot {
-	m := s.Mem
-	return &snapshot{
-		AuthorizeCodes: cpMap(m.AuthorizeCodes), IDSessions: cpMap(m.IDSessions), AccessTokens: cpMap(m.AccessTokens),
-		RefreshTokens: cpMap(m.RefreshTokens), DeviceAuths: cpMap(m.DeviceAuths), PKCES: cpMap(m.PKCES),
-		BlacklistedJTIs: cpMap(m.BlacklistedJTIs), AccessTokenRequestIDs: cpMap(m.AccessTokenRequestIDs),
-		RefreshTokenRequestIDs: cpMap(m.RefreshTokenRequestIDs), DeviceCodesRequestIDs: cpMap(m.DeviceCodesRequestIDs),
-		UserCodesRequestIDs: cpMap(m.UserCodesRequestIDs), PARSessions: cpMap(m.PARSessions), invalidDev: cpMap(s.invalidDev),
+func isLockType(t reflect.Type) bool {
+	n := t.String()
+	return strings.Contains(n, "Mutex") || strings.Contains(n, "sync.") || strings.Contains(n, "atomic.")
+}
+
+// settable returns an assignable view of a struct field, unexported ones included.
+func settable(f reflect.Value) reflect.Value {
+	if f.CanSet() {
+		return f
+	}
+	return reflect.NewAt(f.Type(), unsafe.Pointer(f.UnsafeAddr())).Elem()
+}
+
+// copyContainer copies maps, slices and the storage package's own structs / pointers to them; everything else (requests,
+// clients, keys, scalars) is carried over as is.
+func copyContainer(v reflect.Value, depth int) reflect.Value {
+	if depth > 6 {
+		return v
+	}
+	switch v.Kind() {
+	case reflect.Map:
+		if v.IsNil() {
+			return v
+		}
+		o := reflect.MakeMapWithSize(v.Type(), v.Len())
+		it := v.MapRange()
+		for it.Next() {
+			o.SetMapIndex(it.Key(), copyContainer(it.Value(), depth+1))
+		}
+		return o
+	case reflect.Slice:
+		if v.IsNil() {
+			return v
+		}
+		o := reflect.MakeSlice(v.Type(), v.Len(), v.Len())
+		for i := 0; i < v.Len(); i++ {
+			o.Index(i).Set(copyContainer(v.Index(i), depth+1))
+		}
+		return o
+	case reflect.Ptr:
+		if v.IsNil() || v.Elem().Kind() != reflect.Struct || !strings.HasPrefix(v.Elem().Type().PkgPath(), "github.com/ory/fosite/storage") {
+			return v
+		}
+		o := reflect.New(v.Elem().Type())
+		copyStructFields(o.Elem(), v.Elem(), depth+1)
+		return o
+	case reflect.Struct:
+		if !strings.HasPrefix(v.Type().PkgPath(), "github.com/ory/fosite/storage") {
+			return v
+		}
+		o := reflect.New(v.Type()).Elem()
+		// start from a plain value copy (keeps unexported scalars), then give containers their own storage
+		o.Set(v)
+		if v.CanAddr() {
+			copyStructFields(o, v, depth+1)
+		}
+		return o
+	}
+	return v
+}
+
+func copyStructFields(dst, src reflect.Value, depth int) {
+	for i := 0; i < src.NumField(); i++ {
+		ft := src.Type().Field(i).Type
+		if isLockType(ft) {
+			continue
+		}
+		sf, df := src.Field(i), dst.Field(i)
+		if !sf.CanInterface() {
+			if !sf.CanAddr() {
+				continue
+			}
+			sf = settable(sf)
+		}
+		settable(df).Set(copyContainer(sf, depth))
 	}
 }
 
+func copyMemoryStore(dst, src *storage.MemoryStore) {
+	copyStructFields(reflect.ValueOf(dst).Elem(), reflect.ValueOf(src).Elem(), 0)
+}
+
+// Snapshot copies every table (values are immutable in DB mode).
+func (s *IStore) Snapshot() *snapshot {
+	sn := &snapshot{mem: &storage.MemoryStore{}, invalidDev: cpMap(s.invalidDev)}
+	copyMemoryStore(sn.mem, s.Mem)
+	return sn
+}
+
 func (s *IStore) Restore(sn *snapshot) {
-	m := s.Mem
-	m.AuthorizeCodes = cpMap(sn.AuthorizeCodes)
-	m.IDSessions = cpMap(sn.IDSessions)
-	m.AccessTokens = cpMap(sn.AccessTokens)
-	m.RefreshTokens = cpMap(sn.RefreshTokens)
-	m.DeviceAuths = cpMap(sn.DeviceAuths)
-	m.PKCES = cpMap(sn.PKCES)
-	m.BlacklistedJTIs = cpMap(sn.BlacklistedJTIs)
-	m.AccessTokenRequestIDs = cpMap(sn.AccessTokenRequestIDs)
-	m.RefreshTokenRequestIDs = cpMap(sn.RefreshTokenRequestIDs)
-	m.DeviceCodesRequestIDs = cpMap(sn.DeviceCodesRequestIDs)
-	m.UserCodesRequestIDs = cpMap(sn.UserCodesRequestIDs)
-	m.PARSessions = cpMap(sn.PARSessions)
+	// restore from a copy, so that the snapshot itself stays pristine
+	copyMemoryStore(s.Mem, sn.mem)
 	s.invalidDev = cpMap(sn.invalidDev)
 }
 
@@ -1043,14 +1098,6 @@ func (s *IStore) TxIsOpen() bool {
 
 // ---- digest -----------------------------------------------------------------
 
-func unexportedBool(v interface{}, name string) bool {
-	return reflect.ValueOf(v).FieldByName(name).Bool()
-}
-
-func unexportedString(v interface{}, name string) string {
-	return reflect.ValueOf(v).FieldByName(name).String()
-}
-
 func reqDigest(r fosite.Requester) string {
 	if r == nil || reflect.ValueOf(r).IsNil() {
 		return "<nil>"
@@ -1082,7 +1129,9 @@ func (s *IStore) Digest() string {
 	m := s.Mem
 	var lines []string
 	for k, v := range m.AuthorizeCodes {
-		lines = append(lines, fmt.Sprintf("code %s active=%v %s", k, unexportedBool(v, "active"), reqDigest(v.Requester)))
+		// whether the code is still redeemable is asked of the store, not read from its private flag
+		_, gerr := m.GetAuthorizeCodeSession(context.Background(), k, nil)
+		lines = append(lines, fmt.Sprintf("code %s active=%v %s", k, gerr == nil, reqDigest(v.Requester)))
 	}
 	for k, v := range m.IDSessions {
 		lines = append(lines, fmt.Sprintf("oidc %s %s", k, reqDigest(v)))
@@ -1091,7 +1140,8 @@ func (s *IStore) Digest() string {
 		lines = append(lines, fmt.Sprintf("at %s %s", k, reqDigest(v)))
 	}
 	for k, v := range m.RefreshTokens {
-		lines = append(lines, fmt.Sprintf("rt %s active=%v ats=%s %s", k, unexportedBool(v, "active"), unexportedString(v, "accessTokenSignature"), reqDigest(v.Requester)))
+		_, gerr := m.GetRefreshTokenSession(context.Background(), k, nil)
+		lines = append(lines, fmt.Sprintf("rt %s active=%v %s", k, gerr == nil, reqDigest(v.Requester)))
 	}
 	for k, v := range m.DeviceAuths {
 		lines = append(lines, fmt.Sprintf("dev %s %s", k, reqDigest(v)))
@@ -1099,12 +1149,8 @@ func (s *IStore) Digest() string {
 	for k, v := range m.PKCES {
 		lines = append(lines, fmt.Sprintf("pkce %s %s", k, reqDigest(v)))
 	}
-	for k, v := range m.AccessTokenRequestIDs {
-		lines = append(lines, fmt.Sprintf("atidx %s %s", k, v))
-	}
-	for k, v := range m.RefreshTokenRequestIDs {
-		lines = append(lines, fmt.Sprintf("rtidx %s %s", k, v))
-	}
+	// the request-id indexes are private bookkeeping of the reference store (what they point at is in the tables above): a store
+	// that prunes or keeps dangling entries differently has not changed any credential
 	for k, v := range m.PARSessions {
 		lines = append(lines, fmt.Sprintf("par %s %s", k, reqDigest(v)))
 	}
